@@ -9,6 +9,7 @@ import Mathlib.Data.Complex.Basic
 import Mathlib.Tactic.NormNum
 import Mathlib.Tactic.IntervalCases
 import Mathlib.Tactic.Positivity
+import SpecVerif.Proofs.Lemmas.CRatField
 /-
   C16 — minimum variance (`minvar`, model in `SpecVerif/Model/Minvar.lean`, ψ sequence and final
   inversion in `SpecVerif/Model/Arma.lean`).
@@ -651,5 +652,57 @@ theorem minvar_psd_real_pos_of_rho_ne_zero {ω : 𝕜} {nfft : ℕ} (hω : ω ^ 
     norm_num
 
 end RC2
+
+/-! ### instantiation at the executed scalar type `CRat`
+
+`Lemmas/CRatField.lean` makes the Gaussian rationals of the executable model a `Field` / `StarRing` whose
+operations ARE the model's hand-written instances.  The theorems below are the generic theorems of this
+file specialised to `K := CRat` (by plain application — no rewriting): their statements elaborate to the
+model functions applied to the model's own instances (`CRat.instAdd`, `CRat.instMul`, `CRat.instDiv`, …,
+`CRat.instConj`), i.e. to the code that the differential test executes; `conj` is the model's conjugation.
+The `example … := rfl` lines check that the `Field`-path elaboration used by the generic theorems,
+instantiated at `CRat`, is that very function. -/
+section CRatInstantiation
+
+/-- **`minvar_eq_quadratic_form` for the executed model**; `2 ≠ 0` holds in `CRat`, so the hypothesis
+`h2` of the generic theorem disappears -/
+theorem minvar_eq_quadratic_form_CRat {ω : CRat} {nfft : ℕ} (hω : ω ^ nfft = 1)
+    (hstar : conj ω = ω⁻¹) (a : List CRat) {P : CRat} (hP : conj P = P) (hP0 : P ≠ 0)
+    (ha : 0 < a.length) (ha0 : nth a 0 = 1) (hno : 2 * a.length ≤ nfft + 1) (r : ℕ → CRat)
+    (h0 : conj (r 0) = r 0)
+    (hN : ∀ i, i < a.length →
+      ∑ j ∈ range a.length, (if j ≤ i then r (i - j) else conj (r (j - i))) * nth a j
+        = if i = 0 then P else 0)
+    (Rinv : ℕ → ℕ → CRat)
+    (hRinv : ∀ i j, i < a.length → j < a.length →
+      ∑ l ∈ range a.length, (if l ≤ i then r (i - l) else conj (r (l - i))) * Rinv l j
+        = if i = j then 1 else 0)
+    (fs : CRat) (k : ℕ) (hk : k < nfft) :
+    nth (minvarPsd (twiddles ω nfft) a P fs nfft) k
+      = fs / ∑ i ∈ range a.length, ∑ j ∈ range a.length,
+          conj (ω⁻¹ ^ (i * k)) * Rinv i j * ω⁻¹ ^ (j * k) :=
+  minvar_eq_quadratic_form two_ne_zero hω hstar a hP hP0 ha ha0 hno r h0 hN Rinv hRinv fs k hk
+
+/-- **`minvar_returns_burg` for the executed model** -/
+theorem minvar_returns_burg_CRat (tw x : List CRat) (m : ℕ) (hm : 1 ≤ m) (fs : CRat) (nfft : ℕ) :
+    (minvar tw x m fs nfft).ar = 1 :: (burgRun x (m - 1)).a ∧
+    (minvar tw x m fs nfft).ref = (burgRun x (m - 1)).ref ∧
+    (minvar tw x m fs nfft).psd
+      = minvarPsd tw (1 :: (burgRun x (m - 1)).a) (burgRun x (m - 1)).rho fs nfft ∧
+    (minvar tw x m fs nfft).ar.length = m ∧
+    (minvar tw x m fs nfft).ref.length = m - 1 ∧
+    (minvar tw x m fs nfft).psd.length = nfft :=
+  minvar_returns_burg tw x m hm fs nfft
+
+example : (fun (K : Type) [Field K] [StarRing K] => (minvarPsd : List K → _)) CRat
+    = @minvarPsd CRat CRat.instAdd CRat.instMul CRat.instDiv CRat.instOfNatOfNatNat CRat.instNatCast
+        CRat.instConj CRat.instNeg := rfl
+example : @minvarPsd CRat CRat.instAdd CRat.instMul CRat.instDiv CRat.instOfNatOfNatNat
+    CRat.instNatCast CRat.instConj CRat.instNeg = minvarPsd := rfl
+example : (fun (K : Type) [Field K] [StarRing K] => (minvar : List K → _)) CRat
+    = @minvar CRat CRat.instAdd CRat.instSub CRat.instMul CRat.instDiv CRat.instNeg
+        CRat.instOfNatOfNatNat CRat.instOfNatOfNatNat_1 CRat.instNatCast CRat.instConj := rfl
+
+end CRatInstantiation
 
 end SpecVerif.C16
